@@ -313,4 +313,305 @@ REGISTRY = {
                        'bounded native contracts',
         'trusted_base': ['contracts/passes_prog.py opaque-object model'],
     },
+    'C20': {
+        'level': 'other',
+        'engine': 'pybound',
+        'technique': 'bounded-exhaustive check of native contracts '
+                     '(textbook reference implementations) on the real '
+                     'graph / permutation utilities',
+        'level_text': 'every listed CouplingGraph method, the topology '
+                      'constructors, MachineModel.get_locations and '
+                      'PermutationMatrix.from_qudit_location agree with '
+                      'independent textbook implementations on every '
+                      'labelled graph with up to 5 (quick) / 6 (thorough) '
+                      'vertices, every location / renumbering up to size 4, '
+                      'weighted and remote edges on 3-4 vertices, and all '
+                      'permutations of up to 4 qudits (radix 2) / 3 qudits '
+                      '(radix 3); exhaustive inside the bound, no proof '
+                      'beyond it',
+        'level_note': 'the graph code (set algebra, comprehensions over '
+                      'sets, sort with key, numpy inf) is outside the pyvc '
+                      'subset: no obligation is discharged deductively for '
+                      'this property; UnitaryMatrix/UnitaryBuilder tensor '
+                      'arithmetic is floating point and not decided; '
+                      'shortest-path diagonal not compared',
+        'parts': [
+            {'kind': 'custom', 'module': 'pybound.c20_checks'},
+        ],
+        'rule': 'one evaluation = all 22 contracts on one labelled graph; '
+                'non-trivial = every graph (the empty graph included as a '
+                'corner case)',
+        'explanation': 'bounded-exhaustive native contracts against '
+                       'textbook definitions',
+    },
+    'C08': {
+        'level': 'other',
+        'engine': 'pybound',
+        'technique': 'bounded check of the partitioning contract (unfolded '
+                     'program unchanged, block width, placeholders not '
+                     'absorbed) on the real run() of every partitioner',
+        'level_text': 'for every operation sequence up to the stated length '
+                      'on 3-4 (5) qudits over 1-, 2-, 3-qudit gates, '
+                      'barriers, measurement, reset and a pre-blocked '
+                      'CircuitGate, and block sizes 2-3 (4): the unfolded '
+                      'result has the input timelines and parameters, every '
+                      'block is at most max(block size, widest gate) wide, '
+                      'no placeholder is inside a block, the result is '
+                      'well-formed; bounded stand-in, nothing is proved',
+        'level_note': 'QuickPartitioner.run, the scan/greedy/clustering '
+                      'loops are far outside the pyvc subset; the longest '
+                      'layer of each scope is sampled (VERIF_SEED) in the '
+                      'quick tier; gtqcp/tdag not covered; several genuine '
+                      'defects of the legacy partitioners and one of '
+                      'QuickPartitioner are listed as known findings',
+        'parts': [
+            {'kind': 'custom', 'module': 'pybound.c08_checks'},
+        ],
+        'rule': 'one evaluation = one partitioner on one circuit; every '
+                'evaluation is non-trivial (the pass rebuilds the circuit)',
+        'explanation': 'bounded native contract of the partitioners',
+    },
+    'C09': {
+        'level': 'proof',
+        'technique': 'contract-based deductive verification (pyvc: '
+                     'permutation bookkeeping of _apply_swap, ApplyPlacement, '
+                     'SetModelPass; z3) + bounded native contract of the '
+                     'whole SABRE and PAM pipelines, forward_pass and '
+                     '_apply_perm',
+        'level_text': 'proved for all inputs: _apply_swap composes pi with '
+                      'the transposition and keeps it injective; '
+                      'ApplyPlacement composes both mappings with the '
+                      'placement, widens the circuit through it and resets '
+                      'the placement to the identity; SetModelPass installs '
+                      'the model and the trivial placement or raises with '
+                      'nothing changed.  Bounded: [SetModel, placement, '
+                      'SABRE layout, SABRE routing, ApplyPlacement] on every '
+                      'small circuit x connected graph of the stated scopes '
+                      'satisfies the whole property (coupling respected, '
+                      'output = input conjugated by the recorded mappings '
+                      'with only swaps added, injective mappings, connected '
+                      'placement); the same for the PAM layout/routing '
+                      'pipeline',
+        'level_note': 'forward_pass / backward_pass (front-set loop, swap '
+                      'search, uphill escape) and the placement passes are '
+                      'outside the pyvc subset and are only checked bounded; '
+                      'the permutation-aware (PAM) pipeline is checked '
+                      'bounded with an exact stand-in for its numerical '
+                      'block synthesis (1-/2-qudit gates, block size 2, '
+                      'numeric isometry oracle, tolerance 1e-9); for SABRE '
+                      'the unitary-equivalence reading is replaced by the '
+                      'exact structural one (un-routing the swaps gives the '
+                      'input back); half of the cases enter the pipeline '
+                      'with non-identity mappings already recorded',
+        'parts': [
+            {'kind': 'custom', 'module': 'pybound.c09_checks'},
+            {'kind': 'pyvc', 'module': 'contracts.c09'},
+        ],
+        'rule': 'A: obligations of the three bookkeeping functions; B: one '
+                'evaluation = one circuit on one coupling graph through the '
+                'pipeline with one placement pass, or one forward_pass call',
+        'explanation': 'proved permutation bookkeeping + bounded pipeline '
+                       'contract',
+        'trusted_base': ['contracts/passes_prog.py opaque-object model'],
+    },
+    'C06': {
+        'level': 'proof',
+        'technique': 'contract-based deductive verification (pyvc: parameter '
+                     'index arithmetic and the order/slice/location of every '
+                     'matrix application, as effect-trace contracts; z3) + '
+                     'bounded native contract with an independent '
+                     'digit-arithmetic reference (exact on permutation '
+                     'matrices)',
+        'level_text': 'proved for every circuit (any number of operations, '
+                      'any parameter counts): get_param_location / get_param '
+                      '/ set_param address exactly the operation whose slice '
+                      'holds the index; set_params gives operation k exactly '
+                      'params[S_k : S_k + n_k]; get_unitary and '
+                      'get_statevector request each operation\'s matrix with '
+                      'exactly that slice (or the stored parameters) and '
+                      'apply it on its own location, in iteration order, '
+                      'once.  Bounded: the numerical meaning (tensor '
+                      'contraction with qudit 0 most significant, permuted '
+                      'and non-adjacent locations, mixed radixes, nested '
+                      'CircuitGates, product-rule gradient, explicit = '
+                      'stored parameters, freeze_param, restricted '
+                      'iteration) against the reference on every small '
+                      'circuit of the stated scopes',
+        'level_note': 'the circuit is seen through ghost lists (operations '
+                      'in iteration order, their cycles); the grid lookup, '
+                      'num_params and the iterators enter through assumed '
+                      'contracts and are checked bounded; '
+                      'get_unitary_and_grad, freeze_param and the iterators '
+                      'are outside the pyvc subset (bounded only); floating '
+                      'point is compared with tolerance 1e-10 at one '
+                      'parameter vector per circuit, exactly for constant '
+                      'permutation gates',
+        'parts': [
+            {'kind': 'custom', 'module': 'pybound.c06_checks'},
+            {'kind': 'pyvc', 'module': 'contracts.c06'},
+        ],
+        'rule': 'A: obligations of six Circuit methods incl. loop invariants '
+                'over the effect log and the prefix sums; B: one evaluation '
+                '= one circuit against one group of clauses',
+        'explanation': 'proved index arithmetic + bounded numerical contract',
+        'trusted_base': ['contracts/c06.py ghost view of the circuit'],
+    },
+    'C17': {
+        'level': 'proof',
+        'technique': 'contract-based deductive verification (pyvc: register '
+                     'name -> flat qubit index as a prefix sum; z3) + '
+                     'bounded native contracts (encode/decode round trip; '
+                     'generated OpenQASM 2 programs against Qiskit\'s qasm2 '
+                     'loader)',
+        'level_text': 'proved for every register layout: '
+                      'convert_qubit_id_to_first_index returns the sum of '
+                      'the sizes of the registers declared before the first '
+                      'one with that name, convert_qubit_id_to_indices the '
+                      'consecutive indices from there, LangException exactly '
+                      'when no register has the name.  Bounded: every '
+                      'QASM-expressible gate class survives encode/decode '
+                      '(same per-qubit order, same matrix up to phase, '
+                      'parameters to printing precision); generated programs '
+                      '(several registers in any declaration order, qelib1 '
+                      'gates, nested custom gates with formal parameters in '
+                      'expressions, precedence, unary minus, powers, '
+                      'scientific notation, pi and the standard functions, '
+                      'barriers, measurements) get the unitary Qiskit '
+                      'assigns, up to bit order and global phase',
+        'level_note': 'only the two index functions are inside the pyvc '
+                      'subset (the rest of the visitor walks lark trees and '
+                      'evaluates text with eval); the Qiskit comparison is '
+                      'sampled from a seeded generator, not exhaustive; '
+                      'register broadcast, if-statements and opaque gates '
+                      'are not generated; the Qiskit/Cirq/pytket translators '
+                      'are not exercised; three variable-arity gates whose '
+                      'spelling cannot be read back are known findings',
+        'parts': [
+            {'kind': 'custom', 'module': 'pybound.c17_checks'},
+            {'kind': 'pyvc', 'module': 'contracts.c17'},
+        ],
+        'rule': 'A: obligations of the two index functions incl. loop '
+                'invariants over the prefix sum; B: one evaluation = one '
+                'circuit round trip or one generated program',
+        'explanation': 'proved index arithmetic + bounded round trip and '
+                       'differential contract',
+        'trusted_base': ['qiskit.qasm2 as the independent implementation'],
+    },
+    'C02': {
+        'level': 'proof',
+        'technique': 'contract-based deductive verification in opaque mode '
+                     '(pyvc: the replace filter of ForEachBlockPass, z3) + '
+                     'bounded native contracts (is_compatible and the '
+                     'predicates against an independent three-condition '
+                     'check; the real compile workflows run in-process)',
+        'level_text': 'proved for every block, model and comparison '
+                      'function: the replace filter tests the old block, '
+                      'then the new one, rejects a new block that does not '
+                      'respect the model when the old one does, and lets the '
+                      'size comparison decide when both do (both variants, '
+                      'block and plain operations).  Bounded: '
+                      'MachineModel.is_compatible and PhysicalPredicate '
+                      'agree with the independent check of width/radixes, '
+                      'native gates and couplings (placeholders aside) for '
+                      'every small circuit x graph x gate set x placement '
+                      'incl. non-monotone ones; _is_respecting agrees with '
+                      'it at unsorted locations; the level 1-2 (thorough: '
+                      '1-4) compile workflows give outputs of the model\'s '
+                      'width and radixes with native gates on coupled qudits',
+        'level_note': '_is_respecting itself, is_compatible and the '
+                      'predicates are outside the pyvc subset (set '
+                      'comprehensions over graph edges, isinstance on gate '
+                      'objects): bounded only; that numerical retargeting '
+                      'always succeeds is not decided (the compile cases are '
+                      'a bounded run of the real pipeline on 8 / 14 small '
+                      'inputs); unitaries, states and state systems as '
+                      'compile() inputs are not exercised',
+        'parts': [
+            {'kind': 'custom', 'module': 'pybound.c02_checks'},
+            {'kind': 'pyvc', 'module': 'contracts.c02'},
+        ],
+        'rule': 'A: obligations of the four filter variants over the effect '
+                'log; B: one evaluation = one circuit x model x placement, '
+                'one old/new block pair, or one compile run',
+        'explanation': 'proved replace filter + bounded compatibility and '
+                       'pipeline contracts',
+        'trusted_base': ['contracts/c02.py opaque-object model'],
+    },
+    'C19': {
+        'level': 'other',
+        'engine': 'pybound',
+        'technique': 'bounded native contracts: cost / gradient / residual '
+                     'Jacobian against the closed form of the circuit\'s own '
+                     'unitary and central finite differences on both gate '
+                     'evaluation paths; structural contract of instantiate '
+                     'with the multi-start candidates observed',
+        'level_text': 'on six small circuits (qubit library and composed '
+                      'gates, variable unitaries, qutrits, mixed radix) x '
+                      'unitary / state / state-system targets x sampled '
+                      'parameter vectors: the Hilbert-Schmidt cost and '
+                      'residual cost equal the closed form of '
+                      'circuit.get_unitary(params) on the native path and '
+                      'with every gate wrapped in a Python-defined class, are '
+                      'zero against the own unitary times a phase, gradient '
+                      'and Jacobian match finite differences; instantiate '
+                      '(QFactor, Minimization with Ceres / L-BFGS / SciPy, '
+                      '1-3 (thorough: up to 8) starts) returns the same '
+                      'object, keeps gates, locations, cycles and parameter '
+                      'counts, stores one of the candidates, and none of the '
+                      'candidates is cheaper; bounded stand-in, nothing is '
+                      'proved',
+        'level_note': 'sentence 1 is floating point over all real '
+                      'parameters: only sampled; multi_start_instantiate_'
+                      'inplace (comprehension of opaque calls, sorted with a '
+                      'key) is outside the pyvc subset; a refusal of '
+                      'instantiate (ValueError, or the native "not '
+                      'implemented" panic for U3/U8 circuits that '
+                      'QFactor.is_capable accepts) is counted as skipped; '
+                      'the wrong native gradient of CRYGate is a known '
+                      'finding',
+        'parts': [
+            {'kind': 'custom', 'module': 'pybound.c19_checks'},
+        ],
+        'rule': 'one evaluation = one circuit x target x parameter vector '
+                '(both paths), or one instantiate call',
+        'explanation': 'bounded native contract of the cost functions and '
+                       'of instantiate',
+    },
+    'C01': {
+        'level': 'other',
+        'technique': 'bounded native contract on the real compile workflows '
+                     '(build_workflow levels 1-4 run in-process): isometry '
+                     'oracle from the reported mappings + measurement '
+                     'placement; the mapping bookkeeping it relies on is '
+                     'proved (pyvc, shared with C09)',
+        'level_text': 'for each of the listed circuit x model x level x seed '
+                      'cases the compiled circuit satisfies U_out V(initial) '
+                      '= V(final) U_in up to global phase within 1e-6, both '
+                      'mappings are injective into the machine, and every '
+                      'measurement of the input reappears, after the last '
+                      'gate, on the physical qudit that final_mapping gives '
+                      'for the measured logical qudit with its classical '
+                      'bit.  Proved for all inputs (shared with C09): '
+                      'ApplyPlacement composes both mappings with the '
+                      'placement; _apply_swap keeps pi an injective '
+                      'composition; SetModelPass installs the trivial '
+                      'placement.  The whole-pipeline claim is a bounded '
+                      'stand-in, nothing about it is proved',
+        'level_note': 'sentence 1 is a statement about floating-point '
+                      'synthesis over all circuits: only the listed small '
+                      'cases are run (10 quick / 22 thorough, 1-50 s each); '
+                      'the runtime is a synchronous stand-in (number of '
+                      'workers not varied); compile()\'s own input handling '
+                      'and the Compiler client are not exercised; '
+                      'ExtractMeasurements / RestoreMeasurements are outside '
+                      'the pyvc subset',
+        'parts': [
+            {'kind': 'custom', 'module': 'pybound.c01_checks'},
+            {'kind': 'pyvc', 'module': 'contracts.c09'},
+        ],
+        'rule': 'B: one evaluation = one full workflow run; A: the 30 '
+                'obligations of the three bookkeeping functions',
+        'explanation': 'bounded pipeline contract + proved bookkeeping',
+        'trusted_base': ['contracts/passes_prog.py opaque-object model'],
+    },
 }
